@@ -39,7 +39,7 @@ MINIMISE_BUDGET = {"quick": 90, "thorough": 300}
 
 
 def budget(tier):
-    return 200 if tier == "quick" else 2400
+    return 150 if tier == "quick" else 2400
 
 
 def make_case(seed, i, tier):
@@ -214,7 +214,7 @@ def _restart_from(case, state, N, cum, start_cstep, second=False, depth=0, stats
     scn = dict(case["scn"], plan=[{"steps": N}])
     c2 = dict(case, scn=scn)
     viol = []
-    pre_install = _mk_install("snapshot", arm_steps={1, 2}) if second else None
+    pre_install = _mk_install("snapshot", arm_steps={0, 1, 2}) if second else None
     mons = (lambda c, i: _restart_monitors(c, i) + ([StepMonitor(M.C04Monitor())] if False else []))
     if second:
         def mons(c, i):          # noqa
@@ -344,7 +344,16 @@ def run(case):
         for s in skipped:
             shutil.rmtree(s["dir"], ignore_errors=True)
         trace1 = res1["trace"]
-        for s in todo:
+        import time as _t
+        t_case = _t.time()
+        case_budget = 40.0 if not case.get("all_steps") else 900.0
+        rng.shuffle(todo)                   # a truncated case still samples all steps and effect kinds
+        for n_done, s in enumerate(todo):
+            if _t.time() - t_case > case_budget:
+                stats["states_skipped_time"] = len(todo) - n_done
+                for s_left in todo[n_done:]:
+                    shutil.rmtree(s_left["dir"], ignore_errors=True)
+                break
             kd = kinds[s["step"] - 1] if 0 < s["step"] <= len(kinds) and s["in_step"] else ("between",)
             sites.add((kd, s["kind"].split(":")[0], _role(s["path"]), s["torn"] is not None))
             # --- kill cross-validation
@@ -372,7 +381,15 @@ def run(case):
             violations.extend(v)
             if second:
                 ex2 = r2.get("extra_last") or {}
-                for s2 in ex2.get("states", []):
+                nested = ex2.get("states", [])
+                cap2 = 12 if not case.get("all_steps") else 60
+                if len(nested) > cap2:
+                    keep = set(rng.sample(range(len(nested)), cap2))
+                    for n2, s2 in enumerate(nested):
+                        if n2 not in keep:
+                            shutil.rmtree(s2["dir"], ignore_errors=True)
+                    nested = [s2 for n2, s2 in enumerate(nested) if n2 in keep]
+                for s2 in nested:
                     stats["second_order"] += 1
                     sites.add((("second",) + tuple(kd), s2["kind"].split(":")[0], _role(s2["path"]),
                                s2["torn"] is not None))
@@ -388,6 +405,8 @@ def run(case):
             "violations": violations, "trace": res1["trace"], "digest": res1["digest"],
             "probes": {"crash_states": stats["states"], "restarted": stats["restarts"],
                        "kill_cross_checked": stats["kill_checked"], "second_order_states": stats["second_order"],
+                       "states_skipped_for_time": stats.get("states_skipped_time", 0),
+                       "kill_unordered_skipped": stats.get("kill_unordered_skipped", 0),
                        "main_effects": stats.get("effects", 0)},
             "faults": dict(stats["faults"], crash_state_restarted=stats["restarts"],
                            torn_write=sum(1 for s in todo if s["torn"] is not None)),
